@@ -1,12 +1,24 @@
 #!/bin/bash
-# Offline setup after a fresh restore: C18 facts, full .vo build of every claimed
+# Offline setup after a fresh restore: generated Coq files (pre_build of every claimed
+# property), full .vo build of every claimed
 # property's Coq modules (never -vos), harness binaries warmed.
 set -e
 cd "$(dirname "$0")"
 export GOFLAGS=-mod=mod GOPROXY=off GOSUMDB=off GOTOOLCHAIN=local
-mkdir -p build/bin build/run/C18
-(cd lockset && go build -o ../build/bin/lockset .)
-build/bin/lockset -repo /repo -config lockset/config.json -coq theories/C18/Accesses.v -json build/run/C18/facts.json
+mkdir -p build/bin build/run
+# files regenerated from the source: the pre_build of every claimed property that has one
+# (C18 access facts by /verif/lockset, theories/Cxx/Gen*.v by /verif/gotocoq) - the same
+# commands ./check runs before every Coq build
+python3 - > build/prebuild.sh <<'PY'
+import json
+print('set -e')
+for p in [l.strip() for l in open('claimed.txt') if l.strip() and not l.startswith('#')]:
+    pre = json.load(open('props/%s.json' % p)).get('pre_build')
+    if pre:
+        print('echo "pre_build %s"' % p)
+        print('( %s )' % pre)
+PY
+VERIF_REPO=/repo VERIF_DIR="$PWD" VERIF_BUILD="$PWD/build" VERIF_TIER=quick sh build/prebuild.sh
 targets=$(python3 - <<'PY'
 import json
 for p in [l.strip() for l in open('claimed.txt') if l.strip() and not l.startswith('#')]:
